@@ -213,6 +213,8 @@ pub trait Backing: 'static {
     type A: UnsizedTypeDataAccess + 'static;
     /// a fresh `SharedWrapper` can be taken while exclusive accessors are live
     const SHARED_WHILE_EXCLUSIVE: bool;
+    /// the backing has no realloc log of its own: the raw trace must be recorded for every property
+    const NEEDS_TRACE: bool;
     fn create(initial: &[u8], refuse: Vec<u32>, guard: bool, end_aligned: bool) -> Option<Box<Self>>;
     /// two buffers for a swap case (C03): `A`, `B`
     fn create_pair(a: &[u8], b: &[u8], end_aligned: bool) -> Option<(Box<Self>, Box<Self>)>;
@@ -240,6 +242,7 @@ pub trait Backing: 'static {
 impl Backing for Access {
     type A = Access;
     const SHARED_WHILE_EXCLUSIVE: bool = true;
+    const NEEDS_TRACE: bool = false;
     fn create(initial: &[u8], refuse: Vec<u32>, guard: bool, end_aligned: bool) -> Option<Box<Self>> {
         Some(Box::new(if guard { Access::new_guard(initial, refuse, end_aligned) } else { Access::new(initial, refuse) }))
     }
@@ -395,6 +398,7 @@ impl AcctBacking {
 impl Backing for AcctBacking {
     type A = AccountInfo;
     const SHARED_WHILE_EXCLUSIVE: bool = false;
+    const NEEDS_TRACE: bool = true;
     fn create(initial: &[u8], refuse: Vec<u32>, _guard: bool, _end_aligned: bool) -> Option<Box<Self>> {
         if !refuse.is_empty() {
             // a real account cannot refuse by schedule
